@@ -1,14 +1,1059 @@
 import Model.Util
 /-
-  Model/Arch.lean — (stub) executable model; see DESIGN.md.  Core Lean only.
+  Model/Arch.lean — executable model of the architecture-mutation state machines of AgileRL
+  (`agilerl/modules/{mlp,cnn,lstm,simba,resnet,multi_input}.py`, `agilerl/networks/base.py`).
+
+  One record per evolvable building block with its declared bounds and a total `step` that
+  reproduces each `# HARD LIMIT` guard with the strictness of the code, each argument clamp and
+  each fallback; `Applied` is the method that really took effect (what `MutationContext` resolves as
+  `last_mutation_attr`).  Whatever the code draws from numpy when an argument is omitted is an
+  explicit argument here (`Args`): the harness records the draws and hands them over.
+
+  `Policy` holds the two places where the repaired tree differs from the tree of the design round:
+  `forwardHead`  — `EvolvableWrapper` really forwards the wrapped head's mutations (D20);
+  `clampKernel`  — `change_kernel` clamps explicit arguments to the range of its own random draw.
 -/
 namespace Arch
 open Util
 
+abbrev Shape := List Nat
+abbrev Params := List (String × Shape)
+
+inductive Applied where
+  | addLayer | removeLayer | addNode | removeNode | addChannel | removeChannel | changeKernel
+  | addBlock | removeBlock | addLatent | removeLatent | dead
+deriving DecidableEq, Repr
+
+def Applied.name : Applied → String
+  | .addLayer => "add_layer" | .removeLayer => "remove_layer" | .addNode => "add_node"
+  | .removeNode => "remove_node" | .addChannel => "add_channel" | .removeChannel => "remove_channel"
+  | .changeKernel => "change_kernel" | .addBlock => "add_block" | .removeBlock => "remove_block"
+  | .addLatent => "add_latent_node" | .removeLatent => "remove_latent_node" | .dead => "None"
+
+/-- every argument a mutation call can consume: an explicit keyword argument, or the numpy draw the
+    code makes when it is omitted -/
+structure Args where
+  layer  : Nat := 0     -- `hidden_layer` of add/remove node / channel
+  n      : Nat := 0     -- `numb_new_nodes` / `numb_new_channels`
+  k      : Nat := 0     -- kernel size (draw of `add_layer`, argument or draw of `change_kernel`)
+  stride : Nat := 0     -- stride draw of `add_layer`
+  klayer : Nat := 0     -- `hidden_layer` of `change_kernel`
+deriving DecidableEq, Repr
+
+structure Policy where
+  forwardHead : Bool := true
+  clampKernel : Bool := true
+deriving DecidableEq, Repr
+
+/-! ## EvolvableMLP (also the network heads; `advOut > 0` = DuelingDistributionalMLP) -/
+
+structure MLP where
+  name : String := "mlp"
+  numInputs : Nat
+  numOutputs : Nat
+  hidden : List Nat
+  minLayers : Nat := 1
+  maxLayers : Nat := 3
+  minNodes : Nat := 64
+  maxNodes : Nat := 500
+  layerNorm : Bool := true
+  outputLayerNorm : Bool := false
+  noisy : Bool := false
+  advOut : Nat := 0
+deriving DecidableEq, Repr
+
+inductive MlpMethod where | addLayer | removeLayer | addNode | removeNode
+deriving DecidableEq, Repr
+
+/-- `hidden_layer = min(hidden_layer, len-1)`; `if hidden[i] + n <= max_mlp_nodes: hidden[i] += n` -/
+def MLP.addNode (m : MLP) (a : Args) : MLP :=
+  let i := min a.layer (m.hidden.length - 1)
+  let v := m.hidden.getD i 0
+  if v + a.n ≤ m.maxNodes then { m with hidden := m.hidden.set i (v + a.n) } else m
+
+/-- `if hidden[i] - n > min_mlp_nodes: hidden[i] -= n` (Python ints: `v - n > min ↔ v > min + n`) -/
+def MLP.removeNode (m : MLP) (a : Args) : MLP :=
+  let i := min a.layer (m.hidden.length - 1)
+  let v := m.hidden.getD i 0
+  if v > m.minNodes + a.n then { m with hidden := m.hidden.set i (v - a.n) } else m
+
+def MLP.step (m : MLP) : MlpMethod → Args → MLP × Applied
+  | .addLayer, a =>
+    if m.hidden.length < m.maxLayers then
+      ({ m with hidden := m.hidden ++ [m.hidden.getLastD 0] }, .addLayer)
+    else (m.addNode a, .addNode)
+  | .removeLayer, a =>
+    if m.hidden.length > m.minLayers then ({ m with hidden := m.hidden.dropLast }, .removeLayer)
+    else (m.addNode a, .addNode)
+  | .addNode, a => (m.addNode a, .addNode)
+  | .removeNode, a => (m.removeNode a, .removeNode)
+
+def MLP.WF (m : MLP) : Prop := 1 ≤ m.minLayers
+instance (m : MLP) : Decidable m.WF := by unfold MLP.WF; infer_instance
+def MLP.InBounds (m : MLP) : Prop :=
+  m.minLayers ≤ m.hidden.length ∧ m.hidden.length ≤ m.maxLayers ∧
+  ∀ h ∈ m.hidden, m.minNodes ≤ h ∧ h ≤ m.maxNodes
+instance (m : MLP) : Decidable m.InBounds := by unfold MLP.InBounds; infer_instance
+
+/-! ## EvolvableCNN (Conv2d; Conv3d on the integer-kernel path: `depth = some D`) -/
+
+structure CNN where
+  name : String := "cnn"
+  inC : Nat
+  inH : Nat
+  inW : Nat
+  depth : Option Nat := none
+  numOutputs : Nat
+  channels : List Nat
+  kernels : List Nat
+  strides : List Nat
+  minLayers : Nat := 1
+  maxLayers : Nat := 6
+  minCh : Nat := 32
+  maxCh : Nat := 256
+  layerNorm : Bool := false
+deriving DecidableEq, Repr
+
+inductive CnnMethod where | addLayer | removeLayer | changeKernel | addChannel | removeChannel
+deriving DecidableEq, Repr
+
+/-- output size of an unpadded convolution: `floor((h - k)/s) + 1` -/
+def convOut (h : Int) (k s : Nat) : Int := (h - (k : Int)) / (s : Int) + 1
+
+/-- feature-map (height, width) after every layer — the loop of `calc_max_kernel_sizes` -/
+def mapsAux : Int → Int → List Nat → List Nat → List (Int × Int)
+  | h, w, k :: ks, s :: ss =>
+    let h' := convOut h k s
+    let w' := convOut w k s
+    (h', w') :: mapsAux h' w' ks ss
+  | _, _, _, _ => []
+
+def CNN.maps (c : CNN) : List (Int × Int) := mapsAux c.inH c.inW c.kernels c.strides
+
+/-- `int(min(h, w) * 0.25)` clamped into `[1, 9]` -/
+def clampK (m : Int) : Nat := if m < 4 then 1 else if m / 4 > 9 then 9 else (m / 4).toNat
+
+def CNN.maxKernels (c : CNN) : List Nat := c.maps.map (fun p => clampK (min p.1 p.2))
+
+/-- every feature map has height and width ≥ 1 (⇔ every kernel fits its input) -/
+def CNN.spatialOK (c : CNN) : Bool := c.maps.all (fun p => decide (1 ≤ p.1) && decide (1 ≤ p.2))
+
+def CNN.addChannel (c : CNN) (a : Args) : CNN :=
+  let i := min a.layer (c.channels.length - 1)
+  let v := c.channels.getD i 0
+  if v + a.n ≤ c.maxCh then { c with channels := c.channels.set i (v + a.n) } else c
+
+/-- `if ch[i] - n >= min_channel_size` -/
+def CNN.removeChannel (c : CNN) (a : Args) : CNN :=
+  let i := min a.layer (c.channels.length - 1)
+  let v := c.channels.getD i 0
+  if v ≥ c.minCh + a.n then { c with channels := c.channels.set i (v - a.n) } else c
+
+/-- `len(channel_size) < max_hidden_layers and not any(i <= 2 for i in cnn_output_size[-2:])
+    and max_kernels[-1] > 2` -/
+def CNN.addLayerGuard (c : CNN) : Bool :=
+  decide (c.channels.length < c.maxLayers) &&
+  (match c.maps.getLast? with
+   | some p => decide (2 < p.1) && decide (2 < p.2)
+   | none => false) &&
+  decide (2 < c.maxKernels.getLastD 0)
+
+def CNN.addLayer (c : CNN) (a : Args) : CNN × Applied :=
+  if c.addLayerGuard then
+    ({ c with channels := c.channels ++ [c.channels.getLastD 0],
+              kernels := c.kernels ++ [a.k], strides := c.strides ++ [a.stride] }, .addLayer)
+  else (c.addChannel a, .addChannel)
+
+/-- the layer index and kernel `change_kernel` really writes -/
+def CNN.kernelTarget (p : Policy) (c : CNN) (a : Args) : Nat × Nat :=
+  if p.clampKernel then
+    let i := min a.klayer (c.kernels.length - 1)
+    (i, max 1 (min a.k (c.maxKernels.getD i 1)))
+  else (a.klayer, a.k)
+
+def CNN.step (p : Policy) (c : CNN) : CnnMethod → Args → CNN × Applied
+  | .addLayer, a => c.addLayer a
+  | .removeLayer, a =>
+    if c.channels.length > c.minLayers then
+      ({ c with channels := c.channels.dropLast, kernels := c.kernels.dropLast,
+                strides := c.strides.dropLast }, .removeLayer)
+    else (c.addChannel a, .addChannel)
+  | .changeKernel, a =>
+    if c.channels.length > 1 then
+      let t := c.kernelTarget p a
+      ({ c with kernels := c.kernels.set t.1 t.2 }, .changeKernel)
+    else c.addLayer a
+  | .addChannel, a => (c.addChannel a, .addChannel)
+  | .removeChannel, a => (c.removeChannel a, .removeChannel)
+
+def CNN.WF (c : CNN) : Prop :=
+  1 ≤ c.minLayers ∧ c.kernels.length = c.channels.length ∧ c.strides.length = c.channels.length
+def CNN.InBounds (c : CNN) : Prop :=
+  c.minLayers ≤ c.channels.length ∧ c.channels.length ≤ c.maxLayers ∧
+  ∀ h ∈ c.channels, c.minCh ≤ h ∧ h ≤ c.maxCh
+instance (c : CNN) : Decidable c.InBounds := by unfold CNN.InBounds; infer_instance
+instance (c : CNN) : Decidable c.WF := by unfold CNN.WF; infer_instance
+
+/-- the draws `add_layer` / `change_kernel` can make (and the range explicit arguments are clamped
+    to under `clampKernel`) -/
+def CNN.drawOK (c : CNN) (m : CnnMethod) (a : Args) : Bool :=
+  match m with
+  | .addLayer => decide (2 ≤ a.k) && decide (a.k ≤ c.maxKernels.getLastD 0) &&
+                 decide (1 ≤ a.stride) && decide (a.stride ≤ c.strides.getLastD 0)
+  | .changeKernel =>
+    if c.channels.length > 1 then
+      decide (a.klayer < c.kernels.length) && decide (1 ≤ a.k) &&
+        decide (a.k ≤ c.maxKernels.getD a.klayer 1)
+    else decide (2 ≤ a.k) && decide (a.k ≤ c.maxKernels.getLastD 0) &&
+                 decide (1 ≤ a.stride) && decide (a.stride ≤ c.strides.getLastD 0)
+  | _ => true
+
+/-! ## EvolvableLSTM -/
+
+structure LSTM where
+  name : String := "lstm"
+  inputSize : Nat
+  hidden : Nat
+  numOutputs : Nat
+  numLayers : Nat := 1
+  minHidden : Nat := 32
+  maxHidden : Nat := 512
+  minLayers : Nat := 1
+  maxLayers : Nat := 3
+deriving DecidableEq, Repr
+
+def LSTM.addNode (l : LSTM) (a : Args) : LSTM :=
+  if l.hidden + a.n ≤ l.maxHidden then { l with hidden := l.hidden + a.n } else l
+/-- `if hidden_size - n >= min_hidden_size` -/
+def LSTM.removeNode (l : LSTM) (a : Args) : LSTM :=
+  if l.hidden ≥ l.minHidden + a.n then { l with hidden := l.hidden - a.n } else l
+
+def LSTM.step (l : LSTM) : MlpMethod → Args → LSTM × Applied
+  | .addLayer, a =>
+    if l.numLayers < l.maxLayers then ({ l with numLayers := l.numLayers + 1 }, .addLayer)
+    else (l.addNode a, .addNode)
+  | .removeLayer, a =>
+    if l.numLayers > l.minLayers then ({ l with numLayers := l.numLayers - 1 }, .removeLayer)
+    else (l.addNode a, .addNode)
+  | .addNode, a => (l.addNode a, .addNode)
+  | .removeNode, a => (l.removeNode a, .removeNode)
+
+def LSTM.InBounds (l : LSTM) : Prop :=
+  l.minLayers ≤ l.numLayers ∧ l.numLayers ≤ l.maxLayers ∧ l.minHidden ≤ l.hidden ∧ l.hidden ≤ l.maxHidden
+instance (l : LSTM) : Decidable l.InBounds := by unfold LSTM.InBounds; infer_instance
+
+/-! ## EvolvableSimBa -/
+
+structure SimBa where
+  name : String := "simba"
+  numInputs : Nat
+  numOutputs : Nat
+  hidden : Nat
+  numBlocks : Nat
+  scale : Nat := 4
+  minBlocks : Nat := 1
+  maxBlocks : Nat := 4
+  minNodes : Nat := 16
+  maxNodes : Nat := 500
+deriving DecidableEq, Repr
+
+inductive BlockMethod where | addBlock | removeBlock | addNode | removeNode
+deriving DecidableEq, Repr
+
+def SimBa.addNode (s : SimBa) (a : Args) : SimBa :=
+  if s.hidden + a.n ≤ s.maxNodes then { s with hidden := s.hidden + a.n } else s
+/-- `if hidden_size - n > min_mlp_nodes` -/
+def SimBa.removeNode (s : SimBa) (a : Args) : SimBa :=
+  if s.hidden > s.minNodes + a.n then { s with hidden := s.hidden - a.n } else s
+
+def SimBa.step (s : SimBa) : BlockMethod → Args → SimBa × Applied
+  | .addBlock, a =>
+    if s.numBlocks < s.maxBlocks then ({ s with numBlocks := s.numBlocks + 1 }, .addBlock)
+    else (s.addNode a, .addNode)
+  | .removeBlock, a =>
+    if s.numBlocks > s.minBlocks then ({ s with numBlocks := s.numBlocks - 1 }, .removeBlock)
+    else (s.addNode a, .addNode)
+  | .addNode, a => (s.addNode a, .addNode)
+  | .removeNode, a => (s.removeNode a, .removeNode)
+
+def SimBa.InBounds (s : SimBa) : Prop :=
+  s.minBlocks ≤ s.numBlocks ∧ s.numBlocks ≤ s.maxBlocks ∧ s.minNodes ≤ s.hidden ∧ s.hidden ≤ s.maxNodes
+instance (s : SimBa) : Decidable s.InBounds := by unfold SimBa.InBounds; infer_instance
+
+/-! ## EvolvableResNet -/
+
+structure ResNet where
+  name : String := "resnet"
+  inC : Nat
+  inH : Nat
+  inW : Nat
+  numOutputs : Nat
+  channel : Nat
+  kernel : Nat
+  stride : Nat
+  numBlocks : Nat
+  scale : Nat := 4
+  minBlocks : Nat := 1
+  maxBlocks : Nat := 4
+  minCh : Nat := 32
+  maxCh : Nat := 256
+deriving DecidableEq, Repr
+
+/-- `if channel_size + n < max_channel_size` (strict) -/
+def ResNet.addChannel (r : ResNet) (a : Args) : ResNet :=
+  if r.channel + a.n < r.maxCh then { r with channel := r.channel + a.n } else r
+/-- `if channel_size - n > min_channel_size` -/
+def ResNet.removeChannel (r : ResNet) (a : Args) : ResNet :=
+  if r.channel > r.minCh + a.n then { r with channel := r.channel - a.n } else r
+
+/-- methods: `addBlock`, `removeBlock`, `addNode` = `add_channel`, `removeNode` = `remove_channel` -/
+def ResNet.step (r : ResNet) : BlockMethod → Args → ResNet × Applied
+  | .addBlock, a =>
+    if r.numBlocks < r.maxBlocks then ({ r with numBlocks := r.numBlocks + 1 }, .addBlock)
+    else (r.addChannel a, .addChannel)
+  | .removeBlock, a =>
+    if r.numBlocks > r.minBlocks then ({ r with numBlocks := r.numBlocks - 1 }, .removeBlock)
+    else (r.addChannel a, .addChannel)
+  | .addNode, a => (r.addChannel a, .addChannel)
+  | .removeNode, a => (r.removeChannel a, .removeChannel)
+
+def ResNet.InBounds (r : ResNet) : Prop :=
+  r.minBlocks ≤ r.numBlocks ∧ r.numBlocks ≤ r.maxBlocks ∧ r.minCh ≤ r.channel ∧ r.channel ≤ r.maxCh
+instance (r : ResNet) : Decidable r.InBounds := by unfold ResNet.InBounds; infer_instance
+
+/-! ## latent width of `EvolvableNetwork` / `EvolvableMultiInput` -/
+
+structure Latent where
+  dim : Nat
+  minDim : Nat := 8
+  maxDim : Nat := 128
+deriving DecidableEq, Repr
+
+inductive LatentMethod where | add | remove
+deriving DecidableEq, Repr
+
+/-- `if latent_dim + n < max_latent_dim` ; `if latent_dim - n > min_latent_dim` -/
+def Latent.step (l : Latent) : LatentMethod → Args → Latent × Applied
+  | .add, a => (if l.dim + a.n < l.maxDim then { l with dim := l.dim + a.n } else l, .addLatent)
+  | .remove, a => (if l.dim > l.minDim + a.n then { l with dim := l.dim - a.n } else l, .removeLatent)
+
+def Latent.InBounds (l : Latent) : Prop := l.minDim ≤ l.dim ∧ l.dim ≤ l.maxDim
+instance (l : Latent) : Decidable l.InBounds := by unfold Latent.InBounds; infer_instance
+
+/-! ## parameter-shape tables (`state_dict()` names and shapes) -/
+
+def linearParams (pfx : String) (noisy : Bool) (out inp : Nat) : Params :=
+  if noisy then
+    [(pfx ++ ".weight_mu", [out, inp]), (pfx ++ ".weight_sigma", [out, inp]),
+     (pfx ++ ".bias_mu", [out]), (pfx ++ ".bias_sigma", [out]),
+     (pfx ++ ".weight_epsilon", [out, inp]), (pfx ++ ".bias_epsilon", [out])]
+  else [(pfx ++ ".weight", [out, inp]), (pfx ++ ".bias", [out])]
+
+def normParams (pfx : String) (n : Nat) : Params := [(pfx ++ ".weight", [n]), (pfx ++ ".bias", [n])]
+
+def batchNormParams (pfx : String) (n : Nat) : Params :=
+  [(pfx ++ ".weight", [n]), (pfx ++ ".bias", [n]), (pfx ++ ".running_mean", [n]),
+   (pfx ++ ".running_var", [n]), (pfx ++ ".num_batches_tracked", [])]
+
+/-- hidden layers of `create_mlp`: `{name}_linear_layer_{i}` (+ `{name}_layer_norm_{i}`) -/
+def mlpLayers (pfx : String) (noisy ln : Bool) : Nat → Nat → List Nat → Params
+  | _, _, [] => []
+  | i, inp, h :: hs =>
+    linearParams (pfx ++ "_linear_layer_" ++ toString i) noisy h inp ++
+    (if ln then normParams (pfx ++ "_layer_norm_" ++ toString i) h else []) ++
+    mlpLayers pfx noisy ln (i + 1) h hs
+
+def seqParams (pfx : String) (noisy ln oln : Bool) (inp out : Nat) (hidden : List Nat) : Params :=
+  mlpLayers pfx noisy ln 1 inp hidden ++
+  linearParams (pfx ++ "_linear_layer_output") noisy out (hidden.getLastD inp) ++
+  (if oln then normParams (pfx ++ "_layer_norm_output") out else [])
+
+def MLP.paramShapes (m : MLP) : Params :=
+  seqParams ("model." ++ m.name) m.noisy m.layerNorm m.outputLayerNorm m.numInputs m.numOutputs m.hidden ++
+  (if m.advOut = 0 then []
+   else seqParams "advantage_net.advantage" m.noisy m.layerNorm false m.numInputs m.advOut m.hidden)
+
+def convKernelShape (depth : Option Nat) (first : Bool) (k : Nat) : Shape :=
+  match depth with
+  | none => [k, k]
+  | some d => [if first then d else 1, k, k]
+
+def cnnLayers (pfx : String) (depth : Option Nat) (bn : Bool) :
+    Nat → Nat → List Nat → List Nat → Params
+  | i, inp, c :: cs, k :: ks =>
+    [(pfx ++ "_conv_layer_" ++ toString i ++ ".weight", [c, inp] ++ convKernelShape depth (i == 1) k),
+     (pfx ++ "_conv_layer_" ++ toString i ++ ".bias", [c])] ++
+    (if bn then batchNormParams (pfx ++ "_layer_norm_" ++ toString i) c else []) ++
+    cnnLayers pfx depth bn (i + 1) c cs ks
+  | _, _, _, _ => []
+
+/-- flattened size fed to `{name}_linear_output`: channels × (depth) × h × w of the last map -/
+def CNN.flatSize (c : CNN) : Nat :=
+  match c.maps.getLast? with
+  | some p => c.channels.getLastD c.inC * p.1.toNat * p.2.toNat
+  | none => c.inC * c.inH * c.inW
+
+def CNN.paramShapes (c : CNN) : Params :=
+  cnnLayers ("model." ++ c.name) c.depth c.layerNorm 1 c.inC c.channels c.kernels ++
+  linearParams ("model." ++ c.name ++ "_linear_output") false c.numOutputs c.flatSize
+
+def lstmLayers (pfx : String) (hid : Nat) : Nat → Nat → Nat → Params
+  | _, _, 0 => []
+  | i, inp, n + 1 =>
+    [(pfx ++ ".weight_ih_l" ++ toString i, [4 * hid, inp]), (pfx ++ ".weight_hh_l" ++ toString i, [4 * hid, hid]),
+     (pfx ++ ".bias_ih_l" ++ toString i, [4 * hid]), (pfx ++ ".bias_hh_l" ++ toString i, [4 * hid])] ++
+    lstmLayers pfx hid (i + 1) hid n
+
+def LSTM.paramShapes (l : LSTM) : Params :=
+  lstmLayers ("model." ++ l.name ++ "_lstm") l.hidden 0 l.inputSize l.numLayers ++
+  linearParams ("model." ++ l.name ++ "_lstm_output") false l.numOutputs l.hidden
+
+def simbaBlocks (pfx : String) (hid scale : Nat) : Nat → Nat → Params
+  | _, 0 => []
+  | i, n + 1 =>
+    let b := pfx ++ "_residual_block_" ++ toString i
+    normParams (b ++ ".layer_norm") hid ++ linearParams (b ++ ".linear1") false (hid * scale) hid ++
+    linearParams (b ++ ".linear2") false hid (hid * scale) ++ simbaBlocks pfx hid scale (i + 1) n
+
+def SimBa.paramShapes (s : SimBa) : Params :=
+  let p := "model." ++ s.name
+  linearParams (p ++ "_linear_layer_input") false s.hidden s.numInputs ++
+  simbaBlocks p s.hidden s.scale 1 s.numBlocks ++
+  normParams (p ++ "_layer_norm_output") s.hidden ++
+  linearParams (p ++ "_linear_layer_output") false s.numOutputs s.hidden
+
+def resnetBlocks (pfx : String) (ch scale k : Nat) : Nat → Nat → Params
+  | _, 0 => []
+  | i, n + 1 =>
+    let b := pfx ++ "_residual_block_" ++ toString i
+    [(b ++ ".conv1.weight", [ch * scale, ch, k, k])] ++ batchNormParams (b ++ ".bn1") (ch * scale) ++
+    [(b ++ ".conv2.weight", [ch, ch * scale, k, k])] ++ batchNormParams (b ++ ".bn2") ch ++
+    resnetBlocks pfx ch scale k (i + 1) n
+
+/-- input convolution is padded with `(k-1)//2`; residual blocks keep the size -/
+def ResNet.mapSize (r : ResNet) (h : Nat) : Nat :=
+  (((h : Int) + 2 * (((r.kernel : Int) - 1) / 2) - r.kernel) / (r.stride : Int) + 1).toNat
+
+def ResNet.paramShapes (r : ResNet) : Params :=
+  let p := "model." ++ r.name
+  [(p ++ "_conv_input.weight", [r.channel, r.inC, r.kernel, r.kernel])] ++
+  resnetBlocks p r.channel r.scale r.kernel 1 r.numBlocks ++
+  linearParams (p ++ "_linear_output") false r.numOutputs (r.channel * r.mapSize r.inH * r.mapSize r.inW)
+
+/-! ## constructor descriptions (`init_dict`) -/
+
+inductive Key where
+  | name | num_inputs | num_outputs | hidden_size | min_hidden_layers | max_hidden_layers
+  | min_mlp_nodes | max_mlp_nodes | layer_norm | output_layernorm | noisy | adv_outputs
+  | in_channels | in_height | in_width | depth | channel_size | kernel_size | stride_size
+  | min_channel_size | max_channel_size | input_size | num_layers | min_hidden_size
+  | max_hidden_size | min_layers | max_layers | num_blocks | scale_factor | min_blocks | max_blocks
+  | latent_dim | min_latent_dim | max_latent_dim
+deriving DecidableEq, Repr
+
+def Key.str : Key → String
+  | .name => "name" | .num_inputs => "num_inputs" | .num_outputs => "num_outputs"
+  | .hidden_size => "hidden_size" | .min_hidden_layers => "min_hidden_layers"
+  | .max_hidden_layers => "max_hidden_layers" | .min_mlp_nodes => "min_mlp_nodes"
+  | .max_mlp_nodes => "max_mlp_nodes" | .layer_norm => "layer_norm"
+  | .output_layernorm => "output_layernorm" | .noisy => "noisy" | .adv_outputs => "adv_outputs"
+  | .in_channels => "in_channels" | .in_height => "in_height" | .in_width => "in_width"
+  | .depth => "depth" | .channel_size => "channel_size" | .kernel_size => "kernel_size"
+  | .stride_size => "stride_size" | .min_channel_size => "min_channel_size"
+  | .max_channel_size => "max_channel_size" | .input_size => "input_size"
+  | .num_layers => "num_layers" | .min_hidden_size => "min_hidden_size"
+  | .max_hidden_size => "max_hidden_size" | .min_layers => "min_layers" | .max_layers => "max_layers"
+  | .num_blocks => "num_blocks" | .scale_factor => "scale_factor" | .min_blocks => "min_blocks"
+  | .max_blocks => "max_blocks" | .latent_dim => "latent_dim" | .min_latent_dim => "min_latent_dim"
+  | .max_latent_dim => "max_latent_dim"
+
+inductive Val where
+  | nat (n : Nat) | nats (l : List Nat) | bool (b : Bool) | str (s : String) | optNat (o : Option Nat)
+deriving DecidableEq, Repr
+
+abbrev InitDict := List (Key × Val)
+
+def InitDict.get (d : InitDict) (k : Key) : Option Val := (d.find? (fun e => e.1 == k)).map (·.2)
+def InitDict.nat (d : InitDict) (k : Key) : Option Nat :=
+  match d.get k with | some (.nat n) => some n | _ => none
+def InitDict.nats (d : InitDict) (k : Key) : Option (List Nat) :=
+  match d.get k with | some (.nats n) => some n | _ => none
+def InitDict.bool (d : InitDict) (k : Key) : Option Bool :=
+  match d.get k with | some (.bool n) => some n | _ => none
+def InitDict.str (d : InitDict) (k : Key) : Option String :=
+  match d.get k with | some (.str n) => some n | _ => none
+def InitDict.optNat (d : InitDict) (k : Key) : Option (Option Nat) :=
+  match d.get k with | some (.optNat n) => some n | _ => none
+
+def MLP.toInitDict (m : MLP) : InitDict :=
+  [(.name, .str m.name), (.num_inputs, .nat m.numInputs), (.num_outputs, .nat m.numOutputs),
+   (.hidden_size, .nats m.hidden), (.min_hidden_layers, .nat m.minLayers),
+   (.max_hidden_layers, .nat m.maxLayers), (.min_mlp_nodes, .nat m.minNodes),
+   (.max_mlp_nodes, .nat m.maxNodes), (.layer_norm, .bool m.layerNorm),
+   (.output_layernorm, .bool m.outputLayerNorm), (.noisy, .bool m.noisy), (.adv_outputs, .nat m.advOut)]
+
+def MLP.ofInitDict (d : InitDict) : Option MLP := do
+  let name ← d.str .name
+  let ni ← d.nat .num_inputs
+  let no ← d.nat .num_outputs
+  let h ← d.nats .hidden_size
+  let a ← d.nat .min_hidden_layers
+  let b ← d.nat .max_hidden_layers
+  let c ← d.nat .min_mlp_nodes
+  let e ← d.nat .max_mlp_nodes
+  let ln ← d.bool .layer_norm
+  let oln ← d.bool .output_layernorm
+  let nz ← d.bool .noisy
+  let adv ← d.nat .adv_outputs
+  pure { name := name, numInputs := ni, numOutputs := no, hidden := h, minLayers := a, maxLayers := b,
+         minNodes := c, maxNodes := e, layerNorm := ln, outputLayerNorm := oln, noisy := nz, advOut := adv }
+
+def CNN.toInitDict (c : CNN) : InitDict :=
+  [(.name, .str c.name), (.in_channels, .nat c.inC), (.in_height, .nat c.inH), (.in_width, .nat c.inW),
+   (.depth, .optNat c.depth), (.num_outputs, .nat c.numOutputs), (.channel_size, .nats c.channels),
+   (.kernel_size, .nats c.kernels), (.stride_size, .nats c.strides),
+   (.min_hidden_layers, .nat c.minLayers), (.max_hidden_layers, .nat c.maxLayers),
+   (.min_channel_size, .nat c.minCh), (.max_channel_size, .nat c.maxCh), (.layer_norm, .bool c.layerNorm)]
+
+def CNN.ofInitDict (d : InitDict) : Option CNN := do
+  let name ← d.str .name
+  let ic ← d.nat .in_channels
+  let ih ← d.nat .in_height
+  let iw ← d.nat .in_width
+  let dp ← d.optNat .depth
+  let no ← d.nat .num_outputs
+  let ch ← d.nats .channel_size
+  let ks ← d.nats .kernel_size
+  let ss ← d.nats .stride_size
+  let a ← d.nat .min_hidden_layers
+  let b ← d.nat .max_hidden_layers
+  let mc ← d.nat .min_channel_size
+  let xc ← d.nat .max_channel_size
+  let ln ← d.bool .layer_norm
+  pure { name := name, inC := ic, inH := ih, inW := iw, depth := dp, numOutputs := no, channels := ch,
+         kernels := ks, strides := ss, minLayers := a, maxLayers := b, minCh := mc, maxCh := xc,
+         layerNorm := ln }
+
+def LSTM.toInitDict (l : LSTM) : InitDict :=
+  [(.name, .str l.name), (.input_size, .nat l.inputSize), (.hidden_size, .nat l.hidden),
+   (.num_outputs, .nat l.numOutputs), (.num_layers, .nat l.numLayers),
+   (.min_hidden_size, .nat l.minHidden), (.max_hidden_size, .nat l.maxHidden),
+   (.min_layers, .nat l.minLayers), (.max_layers, .nat l.maxLayers)]
+
+def LSTM.ofInitDict (d : InitDict) : Option LSTM := do
+  let name ← d.str .name
+  let i ← d.nat .input_size
+  let h ← d.nat .hidden_size
+  let no ← d.nat .num_outputs
+  let nl ← d.nat .num_layers
+  let a ← d.nat .min_hidden_size
+  let b ← d.nat .max_hidden_size
+  let c ← d.nat .min_layers
+  let e ← d.nat .max_layers
+  pure { name := name, inputSize := i, hidden := h, numOutputs := no, numLayers := nl, minHidden := a,
+         maxHidden := b, minLayers := c, maxLayers := e }
+
+def SimBa.toInitDict (s : SimBa) : InitDict :=
+  [(.name, .str s.name), (.num_inputs, .nat s.numInputs), (.num_outputs, .nat s.numOutputs),
+   (.hidden_size, .nat s.hidden), (.num_blocks, .nat s.numBlocks), (.scale_factor, .nat s.scale),
+   (.min_blocks, .nat s.minBlocks), (.max_blocks, .nat s.maxBlocks),
+   (.min_mlp_nodes, .nat s.minNodes), (.max_mlp_nodes, .nat s.maxNodes)]
+
+def SimBa.ofInitDict (d : InitDict) : Option SimBa := do
+  let name ← d.str .name
+  let ni ← d.nat .num_inputs
+  let no ← d.nat .num_outputs
+  let h ← d.nat .hidden_size
+  let nb ← d.nat .num_blocks
+  let sc ← d.nat .scale_factor
+  let a ← d.nat .min_blocks
+  let b ← d.nat .max_blocks
+  let c ← d.nat .min_mlp_nodes
+  let e ← d.nat .max_mlp_nodes
+  pure { name := name, numInputs := ni, numOutputs := no, hidden := h, numBlocks := nb, scale := sc,
+         minBlocks := a, maxBlocks := b, minNodes := c, maxNodes := e }
+
+def ResNet.toInitDict (r : ResNet) : InitDict :=
+  [(.name, .str r.name), (.in_channels, .nat r.inC), (.in_height, .nat r.inH), (.in_width, .nat r.inW),
+   (.num_outputs, .nat r.numOutputs), (.channel_size, .nat r.channel), (.kernel_size, .nat r.kernel),
+   (.stride_size, .nat r.stride), (.num_blocks, .nat r.numBlocks), (.scale_factor, .nat r.scale),
+   (.min_blocks, .nat r.minBlocks), (.max_blocks, .nat r.maxBlocks),
+   (.min_channel_size, .nat r.minCh), (.max_channel_size, .nat r.maxCh)]
+
+def ResNet.ofInitDict (d : InitDict) : Option ResNet := do
+  let name ← d.str .name
+  let ic ← d.nat .in_channels
+  let ih ← d.nat .in_height
+  let iw ← d.nat .in_width
+  let no ← d.nat .num_outputs
+  let ch ← d.nat .channel_size
+  let k ← d.nat .kernel_size
+  let s ← d.nat .stride_size
+  let nb ← d.nat .num_blocks
+  let sc ← d.nat .scale_factor
+  let a ← d.nat .min_blocks
+  let b ← d.nat .max_blocks
+  let c ← d.nat .min_channel_size
+  let e ← d.nat .max_channel_size
+  pure { name := name, inC := ic, inH := ih, inW := iw, numOutputs := no, channel := ch, kernel := k,
+         stride := s, numBlocks := nb, scale := sc, minBlocks := a, maxBlocks := b, minCh := c, maxCh := e }
+
+/-! ## composite: basic block, multi-input encoder, network = encoder + head -/
+
+inductive Basic where
+  | mlp (m : MLP) | cnn (c : CNN) | lstm (l : LSTM) | simba (s : SimBa) | resnet (r : ResNet)
+deriving DecidableEq, Repr
+
+def Basic.name : Basic → String
+  | .mlp m => m.name | .cnn c => c.name | .lstm l => l.name | .simba s => s.name | .resnet r => r.name
+def Basic.numOutputs : Basic → Nat
+  | .mlp m => m.numOutputs | .cnn c => c.numOutputs | .lstm l => l.numOutputs
+  | .simba s => s.numOutputs | .resnet r => r.numOutputs
+def Basic.setNumOutputs (n : Nat) : Basic → Basic
+  | .mlp m => .mlp { m with numOutputs := n } | .cnn c => .cnn { c with numOutputs := n }
+  | .lstm l => .lstm { l with numOutputs := n } | .simba s => .simba { s with numOutputs := n }
+  | .resnet r => .resnet { r with numOutputs := n }
+def Basic.paramShapes : Basic → Params
+  | .mlp m => m.paramShapes | .cnn c => c.paramShapes | .lstm l => l.paramShapes
+  | .simba s => s.paramShapes | .resnet r => r.paramShapes
+def Basic.toInitDict : Basic → InitDict
+  | .mlp m => m.toInitDict | .cnn c => c.toInitDict | .lstm l => l.toInitDict
+  | .simba s => s.toInitDict | .resnet r => r.toInitDict
+
+def Basic.layerMethods : Basic → List String
+  | .mlp _ | .cnn _ | .lstm _ => ["add_layer", "remove_layer"]
+  | .simba _ | .resnet _ => ["add_block", "remove_block"]
+def Basic.nodeMethods : Basic → List String
+  | .mlp _ | .lstm _ | .simba _ => ["add_node", "remove_node"]
+  | .cnn _ => ["add_channel", "change_kernel", "remove_channel"]
+  | .resnet _ => ["add_channel", "remove_channel"]
+
+def mlpMethod? : String → Option MlpMethod
+  | "add_layer" => some .addLayer | "remove_layer" => some .removeLayer
+  | "add_node" => some .addNode | "remove_node" => some .removeNode | _ => none
+def cnnMethod? : String → Option CnnMethod
+  | "add_layer" => some .addLayer | "remove_layer" => some .removeLayer
+  | "change_kernel" => some .changeKernel | "add_channel" => some .addChannel
+  | "remove_channel" => some .removeChannel | _ => none
+def simbaMethod? : String → Option BlockMethod
+  | "add_block" => some .addBlock | "remove_block" => some .removeBlock
+  | "add_node" => some .addNode | "remove_node" => some .removeNode | _ => none
+def resnetMethod? : String → Option BlockMethod
+  | "add_block" => some .addBlock | "remove_block" => some .removeBlock
+  | "add_channel" => some .addNode | "remove_channel" => some .removeNode | _ => none
+
+/-- `none` = no such method on this block -/
+def Basic.step (p : Policy) (b : Basic) (meth : String) (a : Args) : Option (Basic × Applied) :=
+  match b with
+  | .mlp m => (mlpMethod? meth).map (fun me => let r := m.step me a; (.mlp r.1, r.2))
+  | .cnn c => (cnnMethod? meth).map (fun me => let r := c.step p me a; (.cnn r.1, r.2))
+  | .lstm l => (mlpMethod? meth).map (fun me => let r := l.step me a; (.lstm r.1, r.2))
+  | .simba s => (simbaMethod? meth).map (fun me => let r := s.step me a; (.simba r.1, r.2))
+  | .resnet r => (resnetMethod? meth).map (fun me => let q := r.step me a; (.resnet q.1, q.2))
+
+structure Multi where
+  name : String := "multi_input"
+  lat : Latent
+  numOutputs : Nat
+  vecDims : Nat
+  subs : List (String × Basic)
+deriving DecidableEq, Repr
+
+def latentMethod? : String → Option LatentMethod
+  | "add_latent_node" => some .add | "remove_latent_node" => some .remove | _ => none
+
+def stepSub (p : Policy) (key meth : String) (a : Args) :
+    List (String × Basic) → Option (List (String × Basic) × Applied)
+  | [] => none
+  | (k, b) :: rest =>
+    if k = key then (b.step p meth a).map (fun r => ((k, r.1) :: rest, r.2))
+    else (stepSub p key meth a rest).map (fun r => ((k, b) :: r.1, r.2))
+
+/-- returns the new encoder and the dotted name of the applied method -/
+def Multi.step (p : Policy) (m : Multi) (path : List String) (a : Args) : Option (Multi × String) :=
+  match path with
+  | [meth] =>
+    (latentMethod? meth).map (fun me =>
+      let r := m.lat.step me a
+      ({ m with lat := r.1, subs := m.subs.map (fun e => (e.1, e.2.setNumOutputs r.1.dim)) }, r.2.name))
+  | ["feature_net", key, meth] =>
+    (stepSub p key meth a m.subs).map (fun r =>
+      ({ m with subs := r.1 }, "feature_net." ++ key ++ "." ++ r.2.name))
+  | _ => none
+
+def prefixParams (pfx : String) (ps : Params) : Params := ps.map (fun e => (pfx ++ e.1, e.2))
+
+def Multi.paramShapes (m : Multi) : Params :=
+  (m.subs.map (fun e => prefixParams ("feature_net." ++ e.1 ++ ".") e.2.paramShapes)).flatten ++
+  linearParams "final_dense" false m.numOutputs (m.lat.dim * m.subs.length + m.vecDims)
+
+inductive Enc where
+  | basic (b : Basic) | multi (m : Multi)
+deriving DecidableEq, Repr
+
+def Enc.numOutputs : Enc → Nat
+  | .basic b => b.numOutputs | .multi m => m.numOutputs
+def Enc.setNumOutputs (n : Nat) : Enc → Enc
+  | .basic b => .basic (b.setNumOutputs n) | .multi m => .multi { m with numOutputs := n }
+def Enc.paramShapes : Enc → Params
+  | .basic b => b.paramShapes | .multi m => m.paramShapes
+
+def Enc.step (p : Policy) (e : Enc) (path : List String) (a : Args) : Option (Enc × String) :=
+  match e with
+  | .basic b =>
+    match path with
+    | [meth] => (b.step p meth a).map (fun r => (.basic r.1, r.2.name))
+    | _ => none
+  | .multi m => (m.step p path a).map (fun r => (.multi r.1, r.2))
+
+structure Net where
+  lat : Latent
+  enc : Enc
+  head : MLP
+  headExtra : Nat := 0              -- ContinuousQNetwork: the action is concatenated to the latent
+  headPrefix : String := "head_net."
+  extra : Params := []              -- e.g. `head_net.log_std`
+  encLayer : Bool := false          -- encoder layer mutations advertised?
+deriving DecidableEq, Repr
+
+/-- encoder output = latent width = head input (− extra) -/
+def Net.Coherent (n : Net) : Prop :=
+  n.enc.numOutputs = n.lat.dim ∧ n.head.numInputs = n.lat.dim + n.headExtra
+instance (n : Net) : Decidable n.Coherent := by unfold Net.Coherent; infer_instance
+
+/-- returns the new network and `last_mutation_attr` (`"None"` when nothing was applied) -/
+def Net.step (p : Policy) (n : Net) (path : List String) (a : Args) : Option (Net × String) :=
+  match path with
+  | [meth] =>
+    (latentMethod? meth).map (fun me =>
+      let r := n.lat.step me a
+      ({ n with lat := r.1, enc := n.enc.setNumOutputs r.1.dim,
+                head := { n.head with numInputs := r.1.dim + n.headExtra } }, r.2.name))
+  | "encoder" :: rest => (n.enc.step p rest a).map (fun r => ({ n with enc := r.1 }, "encoder." ++ r.2))
+  | ["head_net", meth] =>
+    (mlpMethod? meth).map (fun me =>
+      if p.forwardHead then
+        let r := n.head.step me a
+        ({ n with head := r.1 }, "head_net." ++ r.2.name)
+      else (n, Applied.dead.name))
+  | _ => none
+
+def Net.paramShapes (n : Net) : Params :=
+  prefixParams "encoder." n.enc.paramShapes ++ prefixParams n.headPrefix n.head.paramShapes ++ n.extra
+
+/-! ### advertised method names -/
+
+def Multi.methods (m : Multi) (withLayer : Bool) : List String :=
+  ["add_latent_node", "remove_latent_node"] ++
+  (m.subs.map (fun e =>
+    ((if withLayer then e.2.layerMethods else []) ++ e.2.nodeMethods).map
+      (fun s => "feature_net." ++ e.1 ++ "." ++ s))).flatten
+
+def Enc.methods (e : Enc) (withLayer : Bool) : List String :=
+  match e with
+  | .basic b => (if withLayer then b.layerMethods else []) ++ b.nodeMethods
+  | .multi m => m.methods withLayer
+
+def Net.methods (n : Net) : List String :=
+  ["add_latent_node", "remove_latent_node"] ++ (n.enc.methods n.encLayer).map ("encoder." ++ ·) ++
+  ["add_layer", "remove_layer", "add_node", "remove_node"].map ("head_net." ++ ·)
+
+end Arch
+
+/-! ## line protocol -/
+namespace Arch
+open Util
+
+structure Flags where
+  xl : Bool := false     -- `hidden_layer` of node/channel methods given explicitly
+  xn : Bool := false     -- `numb_new_*` given explicitly
+  xk : Bool := false     -- `kernel_size` given explicitly
+  xkl : Bool := false    -- `hidden_layer` of change_kernel given explicitly
+deriving Repr
+
+def nodeDrawOK (choices : List Nat) (len : Nat) (hasLayer : Bool) (a : Args) (x : Flags) : Bool :=
+  (!hasLayer || x.xl || decide (a.layer < len)) && (x.xn || choices.contains a.n)
+
+/-- are the recorded numpy draws inside the ranges the code draws from?  (explicit arguments are
+    unconstrained, except where the code raises) -/
+def Basic.drawsOK (p : Policy) (b : Basic) (meth : String) (a : Args) (x : Flags) : Bool :=
+  match b with
+  | .mlp m =>
+    let node := nodeDrawOK [16, 32, 64] m.hidden.length true a x
+    match mlpMethod? meth with
+    | some .addLayer => if m.hidden.length < m.maxLayers then true else node
+    | some .removeLayer => if m.hidden.length > m.minLayers then true else node
+    | _ => node
+  | .cnn c =>
+    let chan := nodeDrawOK [8, 16, 32] c.channels.length true a x
+    let addL := if c.addLayerGuard then c.drawOK .addLayer a else chan
+    match cnnMethod? meth with
+    | some .addLayer => addL
+    | some .removeLayer => if c.channels.length > c.minLayers then true else chan
+    | some .changeKernel =>
+      if c.channels.length > 1 then
+        let t := if x.xkl then (c.kernelTarget p a).1 else a.klayer
+        (if x.xkl then (p.clampKernel || decide (a.klayer < c.kernels.length))
+         else decide (1 ≤ a.klayer) && decide (a.klayer < min 4 c.channels.length)) &&
+        (x.xk || (decide (1 ≤ a.k) && decide (a.k ≤ c.maxKernels.getD t 1)))
+      else addL
+    | _ => chan
+  | .lstm l =>
+    let node := nodeDrawOK [16, 32, 64] 0 false a x
+    match mlpMethod? meth with
+    | some .addLayer => if l.numLayers < l.maxLayers then true else node
+    | some .removeLayer => if l.numLayers > l.minLayers then true else node
+    | _ => node
+  | .simba s =>
+    let node := nodeDrawOK [16, 32, 64] 0 false a x
+    match simbaMethod? meth with
+    | some .addBlock => if s.numBlocks < s.maxBlocks then true else node
+    | some .removeBlock => if s.numBlocks > s.minBlocks then true else node
+    | _ => node
+  | .resnet r =>
+    let node := nodeDrawOK [8, 16, 32] 0 false a x
+    match resnetMethod? meth with
+    | some .addBlock => if r.numBlocks < r.maxBlocks then true else node
+    | some .removeBlock => if r.numBlocks > r.minBlocks then true else node
+    | _ => node
+
+def latentDrawOK (a : Args) (x : Flags) : Bool := nodeDrawOK [8, 16, 32] 0 false a x
+
+def Enc.drawsOK (p : Policy) (e : Enc) (path : List String) (a : Args) (x : Flags) : Bool :=
+  match e, path with
+  | .basic b, [meth] => b.drawsOK p meth a x
+  | .multi _, [_] => latentDrawOK a x
+  | .multi m, ["feature_net", key, meth] =>
+    match m.subs.find? (fun e => e.1 == key) with
+    | some e => e.2.drawsOK p meth a x
+    | none => true
+  | _, _ => true
+
+def Net.drawsOK (p : Policy) (n : Net) (path : List String) (a : Args) (x : Flags) : Bool :=
+  match path with
+  | [_] => latentDrawOK a x
+  | "encoder" :: rest => n.enc.drawsOK p rest a x
+  | ["head_net", meth] => if p.forwardHead then (Basic.mlp n.head).drawsOK p meth a x else true
+  | _ => true
+
+inductive Top where
+  | enc (e : Enc) | net (n : Net)
+deriving Repr
+
 structure IOState where
-  dummy : Nat := 0
+  cur : Option Top := none
+  regs : List (String × Enc) := []
+  saved : List (Nat × Top) := []
+  policy : Policy := {}
+
+def showBool01 (b : Bool) : String := if b then "1" else "0"
+def showList (l : List Nat) : String := "[" ++ ",".intercalate (l.map toString) ++ "]"
+def Val.show : Val → String
+  | .nat n => toString n | .nats l => showList l | .bool b => showBool01 b | .str s => s
+  | .optNat none => "_" | .optNat (some n) => toString n
+def InitDict.show (d : InitDict) : String :=
+  "{" ++ ";".intercalate (d.map (fun e => e.1.str ++ "=" ++ e.2.show)) ++ "}"
+def Basic.kind : Basic → String
+  | .mlp _ => "mlp" | .cnn _ => "cnn" | .lstm _ => "lstm" | .simba _ => "simba" | .resnet _ => "resnet"
+def Basic.show (b : Basic) : String := b.kind ++ b.toInitDict.show
+def Latent.show (l : Latent) : String :=
+  "latent_dim=" ++ toString l.dim ++ ";min_latent_dim=" ++ toString l.minDim ++ ";max_latent_dim=" ++ toString l.maxDim
+def Multi.show (m : Multi) : String :=
+  "multi{name=" ++ m.name ++ ";" ++ m.lat.show ++ ";num_outputs=" ++ toString m.numOutputs ++ ";vec_dims=" ++
+    toString m.vecDims ++ "}" ++ "".intercalate (m.subs.map (fun e => "|" ++ e.1 ++ ":" ++ e.2.show))
+def Enc.show : Enc → String
+  | .basic b => b.show | .multi m => m.show
+def Net.show (n : Net) : String :=
+  "net{" ++ n.lat.show ++ ";head_extra=" ++ toString n.headExtra ++ "}|encoder:" ++ n.enc.show ++ "|head:" ++
+    (Basic.mlp n.head).show
+def Top.show : Top → String
+  | .enc e => e.show | .net n => n.show
+def Top.paramShapes : Top → Params
+  | .enc e => e.paramShapes | .net n => n.paramShapes
+def showShape (s : Shape) : String := "x".intercalate (s.map toString)
+def showParams (ps : Params) : String := " ".intercalate (ps.map (fun e => e.1 ++ ":" ++ showShape e.2))
+
+def Basic.roundtrip : Basic → Bool
+  | .mlp m => decide (MLP.ofInitDict m.toInitDict = some m)
+  | .cnn c => decide (CNN.ofInitDict c.toInitDict = some c)
+  | .lstm l => decide (LSTM.ofInitDict l.toInitDict = some l)
+  | .simba s => decide (SimBa.ofInitDict s.toInitDict = some s)
+  | .resnet r => decide (ResNet.ofInitDict r.toInitDict = some r)
+
+def Basic.inBounds : Basic → Bool
+  | .mlp m => decide m.InBounds
+  | .cnn c => decide c.InBounds
+  | .lstm l => decide l.InBounds
+  | .simba s => decide s.InBounds
+  | .resnet r => decide r.InBounds
+def Enc.inBounds : Enc → Bool
+  | .basic b => b.inBounds
+  | .multi m => decide m.lat.InBounds && m.subs.all (fun e => e.2.inBounds)
+def Top.inBounds : Top → Bool
+  | .enc e => e.inBounds
+  | .net n => decide n.lat.InBounds && n.enc.inBounds && decide n.head.InBounds
+def Top.coherent : Top → Bool
+  | .enc (.multi m) => m.subs.all (fun e => e.2.numOutputs == m.lat.dim)
+  | .enc _ => true
+  | .net n => decide n.Coherent &&
+      (match n.enc with | .multi m => m.subs.all (fun e => e.2.numOutputs == m.lat.dim) | _ => true)
+def Top.methods : Top → List String
+  | .enc (.basic b) => b.layerMethods ++ b.nodeMethods
+  | .enc (.multi m) => m.methods true
+  | .net n => n.methods
+
+def Top.step (p : Policy) (t : Top) (path : List String) (a : Args) : Option (Top × String) :=
+  match t with
+  | .enc e => (e.step p path a).map (fun r => (.enc r.1, r.2))
+  | .net n => (n.step p path a).map (fun r => (.net r.1, r.2))
+def Top.drawsOK (p : Policy) (t : Top) (path : List String) (a : Args) (x : Flags) : Bool :=
+  match t with
+  | .enc e => e.drawsOK p path a x
+  | .net n => n.drawsOK p path a x
+
+def parseBool? : String → Option Bool
+  | "1" => some true | "0" => some false | _ => none
+def parseOptNat? (s : String) : Option (Option Nat) :=
+  if s = "_" then some none else (parseNat? s).map some
+
+/-- `k=v` tokens of a `mut` line -/
+def parseKw : List String → Option (Args × Flags)
+  | [] => some ({}, {})
+  | w :: rest =>
+    match parseKw rest, w.splitOn "=" with
+    | some (a, x), [key, v] =>
+      match parseNat? v with
+      | none => none
+      | some n =>
+        match key with
+        | "hl" => some ({ a with layer := n }, x)
+        | "n" => some ({ a with n := n }, x)
+        | "k" => some ({ a with k := n }, x)
+        | "s" => some ({ a with stride := n }, x)
+        | "kl" => some ({ a with klayer := n }, x)
+        | "xhl" => some (a, { x with xl := n != 0 })
+        | "xn" => some (a, { x with xn := n != 0 })
+        | "xk" => some (a, { x with xk := n != 0 })
+        | "xkl" => some (a, { x with xkl := n != 0 })
+        | _ => none
+    | _, _ => none
+
+/-- three equal chunks -/
+def split3 (l : List Nat) (n : Nat) : Option (List Nat × List Nat × List Nat) :=
+  if l.length = 3 * n then some (l.take n, (l.drop n).take n, l.drop (2 * n)) else none
+
+def parseBasic : List String → Option Basic
+  | "mlp" :: name :: ni :: no :: a :: b :: c :: d :: ln :: oln :: nz :: adv :: hs => do
+    let h ← parseNats? hs
+    pure (.mlp { name := name, numInputs := ← parseNat? ni, numOutputs := ← parseNat? no, hidden := h,
+                 minLayers := ← parseNat? a, maxLayers := ← parseNat? b, minNodes := ← parseNat? c,
+                 maxNodes := ← parseNat? d, layerNorm := ← parseBool? ln, outputLayerNorm := ← parseBool? oln,
+                 noisy := ← parseBool? nz, advOut := ← parseNat? adv })
+  | "cnn" :: name :: ic :: ih :: iw :: dp :: no :: a :: b :: c :: d :: ln :: n :: rest => do
+    let nn ← parseNat? n
+    let (ch, ks, ss) ← split3 (← parseNats? rest) nn
+    pure (.cnn { name := name, inC := ← parseNat? ic, inH := ← parseNat? ih, inW := ← parseNat? iw,
+                 depth := ← parseOptNat? dp, numOutputs := ← parseNat? no, channels := ch, kernels := ks,
+                 strides := ss, minLayers := ← parseNat? a, maxLayers := ← parseNat? b, minCh := ← parseNat? c,
+                 maxCh := ← parseNat? d, layerNorm := ← parseBool? ln })
+  | ["lstm", name, i, h, no, nl, a, b, c, d] => do
+    pure (.lstm { name := name, inputSize := ← parseNat? i, hidden := ← parseNat? h, numOutputs := ← parseNat? no,
+                  numLayers := ← parseNat? nl, minHidden := ← parseNat? a, maxHidden := ← parseNat? b,
+                  minLayers := ← parseNat? c, maxLayers := ← parseNat? d })
+  | ["simba", name, ni, no, h, nb, sc, a, b, c, d] => do
+    pure (.simba { name := name, numInputs := ← parseNat? ni, numOutputs := ← parseNat? no, hidden := ← parseNat? h,
+                   numBlocks := ← parseNat? nb, scale := ← parseNat? sc, minBlocks := ← parseNat? a,
+                   maxBlocks := ← parseNat? b, minNodes := ← parseNat? c, maxNodes := ← parseNat? d })
+  | ["resnet", name, ic, ih, iw, no, ch, k, s, nb, sc, a, b, c, d] => do
+    pure (.resnet { name := name, inC := ← parseNat? ic, inH := ← parseNat? ih, inW := ← parseNat? iw,
+                    numOutputs := ← parseNat? no, channel := ← parseNat? ch, kernel := ← parseNat? k,
+                    stride := ← parseNat? s, numBlocks := ← parseNat? nb, scale := ← parseNat? sc,
+                    minBlocks := ← parseNat? a, maxBlocks := ← parseNat? b, minCh := ← parseNat? c,
+                    maxCh := ← parseNat? d })
+  | _ => none
+
+def parseParam (w : String) : Option (String × Shape) :=
+  match w.splitOn ":" with
+  | [n, s] => (parseNats? ((s.splitOn "x").filter (· ≠ ""))).map (fun sh => (n, sh))
+  | _ => none
+
+def lookupReg (regs : List (String × Enc)) (r : String) : Option Enc :=
+  (regs.find? (fun e => e.1 == r)).map (·.2)
+
+def basicsOf (regs : List (String × Enc)) : List String → Option (List (String × Basic))
+  | [] => some []
+  | r :: rest =>
+    match lookupReg regs r, basicsOf regs rest with
+    | some (.basic b), some l => some ((b.name, b) :: l)
+    | _, _ => none
 
 def step (s : IOState) : List String → IOState × String
+  | ["policy", f, c] =>
+    match parseBool? f, parseBool? c with
+    | some f, some c => ({ s with policy := { forwardHead := f, clampKernel := c } }, "ok")
+    | _, _ => (s, "bad-op")
+  | "def" :: reg :: rest =>
+    match parseBasic rest with
+    | some b => ({ s with regs := (reg, .basic b) :: s.regs.filter (fun e => e.1 != reg) }, "ok")
+    | none => (s, "bad-op")
+  | "multi" :: reg :: name :: lat :: lo :: hi :: no :: vd :: subs =>
+    match parseNats? [lat, lo, hi, no, vd], basicsOf s.regs subs with
+    | some [lat, lo, hi, no, vd], some bs =>
+      let m : Multi := { name := name, lat := { dim := lat, minDim := lo, maxDim := hi }, numOutputs := no,
+                         vecDims := vd, subs := bs }
+      ({ s with regs := (reg, .multi m) :: s.regs.filter (fun e => e.1 != reg) }, "ok")
+    | _, _ => (s, "bad-op")
+  | "net" :: encR :: headR :: lat :: lo :: hi :: ex :: encLayer :: hp :: extra =>
+    match lookupReg s.regs encR, lookupReg s.regs headR, parseNats? [lat, lo, hi, ex], parseBool? encLayer,
+          allSome (extra.map parseParam) with
+    | some e, some (.basic (.mlp h)), some [lat, lo, hi, ex], some el, some ps =>
+      let n : Net := { lat := { dim := lat, minDim := lo, maxDim := hi }, enc := e, head := h,
+                       headExtra := ex, headPrefix := hp, extra := ps, encLayer := el }
+      ({ s with cur := some (.net n) }, "ok")
+    | _, _, _, _, _ => (s, "bad-op")
+  | ["use", reg] =>
+    match lookupReg s.regs reg with
+    | some e => ({ s with cur := some (.enc e) }, "ok")
+    | none => (s, "bad-op")
+  | ["save", i] =>
+    match parseNat? i, s.cur with
+    | some i, some t => ({ s with saved := (i, t) :: s.saved }, "ok")
+    | _, _ => (s, "bad-op")
+  | ["load", i] =>
+    match parseNat? i with
+    | some i =>
+      match s.saved.find? (fun e => e.1 == i) with
+      | some e => ({ s with cur := some e.2 }, "ok")
+      | none => (s, "bad-op")
+    | none => (s, "bad-op")
+  | "mut" :: meth :: kws =>
+    match s.cur, parseKw kws with
+    | some t, some (a, x) =>
+      let path := meth.splitOn "."
+      match t.step s.policy path a with
+      | none => (s, "bad-op")
+      | some (t', applied) =>
+        if t.drawsOK s.policy path a x then ({ s with cur := some t' }, applied) else (s, "reject")
+    | _, _ => (s, "bad-op")
+  | ["init"] => match s.cur with | some t => (s, t.show) | none => (s, "bad-op")
+  | ["shapes"] => match s.cur with | some t => (s, showParams t.paramShapes) | none => (s, "bad-op")
+  | ["methods"] => match s.cur with | some t => (s, " ".intercalate t.methods) | none => (s, "bad-op")
+  | ["inbounds"] => match s.cur with | some t => (s, showBool01 t.inBounds) | none => (s, "bad-op")
+  | ["coherent"] => match s.cur with | some t => (s, showBool01 t.coherent) | none => (s, "bad-op")
+  | ["roundtrip"] =>
+    match s.cur with
+    | some (.enc (.basic b)) => (s, showBool01 b.roundtrip)
+    | some (.enc (.multi m)) => (s, showBool01 (m.subs.all (fun e => e.2.roundtrip)))
+    | some (.net n) =>
+      (s, showBool01 ((Basic.mlp n.head).roundtrip &&
+        (match n.enc with | .basic b => b.roundtrip | .multi m => m.subs.all (fun e => e.2.roundtrip))))
+    | none => (s, "bad-op")
+  | ["maps"] =>
+    match s.cur with
+    | some (.enc (.basic (.cnn c))) =>
+      (s, " ".intercalate (c.maps.map (fun p => toString p.1 ++ "x" ++ toString p.2)) ++ " | " ++
+          showNats c.maxKernels ++ " | " ++ showBool01 c.spatialOK)
+    | _ => (s, "bad-op")
   | _ => (s, "bad-op")
 
 end Arch
